@@ -21,6 +21,34 @@ SPEC = {
         "ASSUMPTIONS": ["f and J payloads are opaque in the model (Python float formatting / json codec): their round trip is decided by the oracle only",
                         "document-level normalisations (header split, complement links, grouping) are decided by oracle + correspondence"],
     },
+    "C02": {
+        "LEAN": {"modules": ["GfaProofs.Bridge.Geometry", "GfaProofs.C02"], "support": ["GfaModel.Graph", "GfaModel.GraphObs", "GfaProofs.Lemmas.Graph", "GfaProofs.C09"],
+                 "theorems": ["Gfa.C02.closed_reachable_partial", "Gfa.C02.step_closed", "Gfa.C02.add_closed", "Gfa.C02.rm_closed",
+                              "Gfa.C02.rmIdx_closed", "Gfa.C02.rm_no_zombie", "Gfa.C02.reference_resolves", "Gfa.C02.ensureRefs_grow",
+                              "Gfa.C02.cascade_closed", "Gfa.C02.live_not_dependent", "Gfa.C09.nodup_reachable",
+                              "Gfa.Bridge.Geometry.refkey_table", "Gfa.Bridge.Geometry.linkKey_table", "Gfa.Bridge.Geometry.gapKey_table"]},
+        "ASSUMPTIONS": ["closure is proved for histories of add_line / rm (closed_reachable_partial); for rename the substitution lemmas are not proved "
+                        "(the executable model substitutes, the correspondence compares the complete observation after every rename)",
+                        "symmetry reference/back-reference: back-reference collections are queries over forward references in the model, so for that "
+                        "clause the claim about the code rests on the correspondence (every collection of every line after every step) and the oracle",
+                        "path -> link resolution is dynamic in the model (first compatible stored link)"],
+    },
+    "C03": {
+        "LEAN": {"modules": ["GfaProofs.C03", "GfaProofs.C13"], "support": ["GfaModel.Graph", "GfaModel.Version", "GfaProofs.C02", "GfaProofs.C09"],
+                 "theorems": ["Gfa.C03.defined_not_virtual", "Gfa.C03.add_defines", "Gfa.C03.add_cases", "Gfa.C03.ensureRefs_keeps",
+                              "Gfa.C13.build_perm", "Gfa.C13.build_eq_spec", "Gfa.C02.closed_reachable_partial", "Gfa.C09.nodup_reachable"]},
+        "ASSUMPTIONS": ["the full statement (equal observation for every permutation) is not proved in Lean: proved are version invariance, "
+                        "replacement of placeholders by definitions, closure and uniqueness in every arrival order; equality across orders is decided "
+                        "by the oracle (library vs itself on all n! orders) and the correspondence (model vs library on sampled orders)"],
+    },
+    "C05": {
+        "LEAN": {"modules": ["GfaProofs.C05"], "support": ["GfaModel.Graph", "GfaProofs.C02"],
+                 "theorems": ["Gfa.C05.cascade_sound", "Gfa.C05.cascade_complete", "Gfa.C05.rm_lines", "Gfa.C05.rm_kept_unchanged",
+                              "Gfa.C05.rm_set_rest", "Gfa.C05.rm_name_gone", "Gfa.C02.rmIdx_closed", "Gfa.C02.dropItems_itemRefs",
+                              "Gfa.C09.rename_nodup", "Gfa.G.renameIn_name"]},
+        "ASSUMPTIONS": ["the refinement 'state = parse of the denoted text' is decided by the oracle (independent text model + reparse) and the "
+                        "correspondence; proved in Lean: the removal cascade is exactly the least closed set of dependants, the rest is textually unchanged"],
+    },
     "C04": {
         "LEAN": {"modules": ["GfaProofs.Bridge.Regex", "GfaProofs.Lemmas.Regex", "GfaProofs.C20"],
                  "support": ["GfaProofs.Lemmas.RegexLang", "GfaModel.Grammar", "GfaModel.Field", "GfaModel.Regex"],
